@@ -25,7 +25,7 @@ func init() {
 			"chunk count ground truth = number of chunk records in the file as decoded by refmcap",
 			"Info is not requested for files without leading magic (NewReader has no SkipMagic)",
 		},
-		batches: map[string]int{"quick": 48, "thorough": 400},
+		batches: map[string]int{"quick": 48, "thorough": 96},
 		checks:  map[string]int{"quick": 150, "thorough": 250},
 	}})
 }
